@@ -228,3 +228,65 @@ Proof.
   - rewrite src_byteswap_is_model by exact Hw. rewrite H. reflexivity.
   - rewrite H. reflexivity.
 Qed.
+
+(* ---- C10: detail::is_within_size and the SBEPP_SIZE_CHECK macro (expanded by
+   clang inside a probe function of the instantiation unit) ---- *)
+From Sbepp Require Cursor SizeCheck.
+Ltac lebs :=
+  repeat match goal with
+  | |- context [Z.leb ?a ?b] => destruct (Z.leb_spec a b)
+  end.
+
+Lemma src_is_within_size_spec off size avail :
+  in_range U64 off = true -> in_range U64 size = true -> in_range U64 avail = true ->
+  effs_eval [("offset", off); ("size", size); ("available", avail)] src_is_within_size
+  = Some [zb (off + size <=? avail)%Z].
+Proof.
+  intros Ho Hs Ha. unfold src_is_within_size.
+  cbn [effs_eval ceval lookup String.eqb Ascii.eqb Bool.eqb obind]. bounds.
+  unfold ecmp. destruct (Z.leb_spec size avail); cbn [zb Z.eqb obind].
+  - unfold ebin, csub, cbin, arith. cbn [uac promote ity_eqb is_signed obind]. wraps.
+    cbn [obind]. lebs; cbn [zb Z.eqb]; try reflexivity; lia.
+  - lebs; cbn [zb Z.eqb]; try reflexivity; lia.
+Qed.
+
+Lemma src_size_check_macro_is_model b e off size :
+  0 < b < 2 ^ 63 -> 0 <= e < 2 ^ 63 -> in_range U64 off = true -> in_range U64 size = true ->
+  effs_eval [("begin", b); ("end", e); ("offset", off); ("size", size)] src_size_check_macro
+  = Some [zb (Cursor.size_check b e off size)].
+Proof.
+  intros Hb He Ho Hs. unfold src_size_check_macro, Cursor.size_check.
+  cbn [effs_eval ceval lookup String.eqb Ascii.eqb Bool.eqb obind]. bounds.
+  unfold ecmp. destruct (Z.eqb_spec b 0) as [->|_]; [lia|]. cbn [negb zb Z.eqb obind].
+  destruct (Z.leb_spec b e); cbn [zb Z.eqb obind andb].
+  - unfold ebin, csub, cbin, arith. cbn [uac promote ity_eqb is_signed obind]. wraps.
+    assert (Hr : in_range I64 (e - b) = true) by rng. rewrite Hr. cbn [obind]. wraps.
+    rewrite (Z.mod_small (e - b)) by lia.
+    destruct (Z.leb_spec size (e - b)); cbn [zb Z.eqb obind].
+    + wraps. cbn [obind]. lebs; cbn [zb Z.eqb]; try reflexivity; lia.
+    + lebs; cbn [zb Z.eqb]; try reflexivity; lia.
+  - reflexivity.
+Qed.
+
+(* C10 on the source: the handler stays silent exactly when the accessed bytes
+   [begin+offset, begin+offset+size) lie inside [begin, end), wherever the view
+   starts (also past the end of the buffer) *)
+Theorem src_size_check_sound_complete b e off size :
+  0 < b < 2 ^ 63 -> 0 <= e < 2 ^ 63 -> in_range U64 off = true -> in_range U64 size = true ->
+  (effs_eval [("begin", b); ("end", e); ("offset", off); ("size", size)] src_size_check_macro = Some [1]
+   <-> (b <= e /\ b + off + size <= e)) /\
+  (effs_eval [("begin", b); ("end", e); ("offset", off); ("size", size)] src_size_check_macro = Some [0]
+   <-> ~ (b <= e /\ b + off + size <= e)).
+Proof.
+  intros Hb He Ho Hs. rewrite (src_size_check_macro_is_model b e off size Hb He Ho Hs).
+  destruct (Cursor.size_check b e off size) eqn:E; cbn [zb].
+  - pose proof (SizeCheck.size_check_sound b e off size ltac:(lia) E) as Hin.
+    split; split; intros H; try exact Hin; try reflexivity; try discriminate H. contradiction.
+  - assert (Hn : ~ (b <= e /\ b + off + size <= e)).
+    { intros [H1 H2]. rewrite (SizeCheck.size_check_complete b e off size H1 ltac:(lia) H2) in E. discriminate E. }
+    split; split; intros H; try exact Hn; try reflexivity; try discriminate H. contradiction.
+Qed.
+
+Example src_size_check_view_past_end : (* the input that defeated the macro before its repair *)
+  effs_eval [("begin", 1012); ("end", 64); ("offset", 0); ("size", 4)] src_size_check_macro = Some [0].
+Proof. vm_compute. reflexivity. Qed.
